@@ -99,6 +99,7 @@ package funnel
 //verif:loop 0 decreases len(acks) - j
 
 //verif:func (*DestinationTask).Do(t, ctx, batch) (err)
+//verif:let records = result_of("(*Batch).ActiveRecords", 0)
 //verif:requires BInv(batch) && slack(batch) == 0
 //verif:ensures[ack-coverage] err == nil ==> ackCount == len(positions)
 //verif:call[write-active] Destination.Write requires arg1 == result_of("(*Batch).ActiveRecords", 0)
@@ -182,6 +183,8 @@ package funnel
 
 //verif:func (*DLQ).sendToDLQ(d, ctx, batch, taskID) (n, err)
 //verif:requires BLens(batch)
+//verif:let dlqBatch = result_of("NewBatch", 0)
+//verif:let dlqRecords = arg_of("NewBatch", 0)
 //verif:ensures[range] 0 <= n && n <= len(batch.records)
 //verif:ensures[all-or-error] err == nil ==> n == len(batch.records)
 //verif:ensures[acked-prefix] forall k in [0, n): dlqBatch.recordStatuses[k].Flag == RecordFlagAck
@@ -195,12 +198,14 @@ package funnel
 //verif:modifies nothing
 
 //verif:func (*multiAckNacker).Ack(m, ctx, batch) (err)
+//verif:let ob = result_of("(*Batch).originalBatch", 0)
 //verif:requires mInv(m) && posIdxInv(m) && BLens(batch)
 //verif:ensures[inv] mInv(m)
 //verif:loop 0 vars j
 //verif:loop 0 invariant mInv(m) && posIdxInv(m) && j < len(ob.positions) && BLens(ob) && m.released == old(m.released)
 
 //verif:func (*multiAckNacker).Nack(m, ctx, batch, taskID) (err)
+//verif:let ob = result_of("(*Batch).originalBatch", 0)
 //verif:requires mInv(m) && posIdxInv(m) && BLens(batch)
 //verif:ensures[inv] mInv(m)
 //verif:loop 0 vars j
